@@ -293,7 +293,7 @@ theorem schedule_res (maxArr : Nat) (sc : Script) (fuel : Nat) (s : EState) (h :
           Res (schedule maxArr sc n (advance 4000
             (if s.arrivals.length >= maxArr then
                 applyAction (flushCompletions { s with arrivals := s.arrivals ++ [arrivalKind s.pc] }) .halt
-             else (scriptAt sc s.arrivals.length).foldl applyAction
+             else (orderActions (scriptAt sc s.arrivals.length)).foldl applyAction
                 (flushCompletions { s with arrivals := s.arrivals ++ [arrivalKind s.pc] })))) := by
         intro hnf
         apply ih
@@ -315,7 +315,7 @@ theorem schedule_res (maxArr : Nat) (sc : Script) (fuel : Nat) (s : EState) (h :
               | [] =>
                 let (s3, did) := releaseAll s''
                 schedule maxArr sc n (if did then s3 else applyAction s3 .halt)
-              | as => schedule maxArr sc n (as.foldl applyAction s'')
+              | as => schedule maxArr sc n ((orderActions as).foldl applyAction s'')
             else schedule maxArr sc n s') := by
         intro hnf
         simp only []
